@@ -231,6 +231,7 @@ def run_pipeline(pid, tier, seed, presets, per, budget, malmax, over, rounds=1, 
                 for k, v in (r.get("mal_by_kind") or {}).items():
                     stats["mal"][k] = stats["mal"].get(k, 0) + v
                 stats["plan_hashes"] += r.get("plan_hashes", 0)
+                stats["alias_probes"] = stats.get("alias_probes", 0) + r.get("alias_probes", 0)
                 stats["distinct"].add(r["hash"])
                 for nt in r.get("notes") or []:
                     key = r["t"] + ": " + nt[:100]
@@ -279,6 +280,8 @@ def coverage_guard(stats, need_mal):
             holes.append(t + ": variable-size type never seen with more than its smallest encoding")
     if holes:
         raise lib.InfraError("coverage holes: " + "; ".join(holes[:20]))
+    if stats.get("alias_probes", 0) == 0:
+        raise lib.InfraError("no struct->view conversion was probed for argument aliasing")
     if need_mal:
         for k in ("truncate", "offset"):
             if stats["mal"].get(k, 0) == 0:
@@ -307,7 +310,8 @@ def evidence_coverage(stats, extra=None):
         "distinct_cases": len(stats["distinct"]), "method_checks_on_real_code": stats["checks"],
         "types_bound": len(stats["per_type"]), "tlc_runs": stats["tlc_runs"], "rounds": stats["rounds"],
         "per_preset": stats["per_preset"], "malformed_tried": stats["mal"], "overlimit_cases": stats["overlimit_cases"],
-        "sha256_hashes_evaluated_from_plans": stats["plan_hashes"], "views_checked": stats["views_checked"],
+        "sha256_hashes_evaluated_from_plans": stats["plan_hashes"],
+        "struct_to_view_alias_probes": stats.get("alias_probes", 0), "views_checked": stats["views_checked"],
         "skipped_too_big_for_tlc": stats["skipped_too_big"],
         "samples": stats["samples"],
         "notes_non_verdict": dict(sorted(stats["notes"].items())[:40]),
